@@ -25,6 +25,7 @@ INVARIANT OneAddrPerSocket
 INVARIANT NoDoubleAlloc
 INVARIANT RangesRespected
 INVARIANT FreedOnLastClose
+INVARIANT AddrPoolConserved
 INVARIANT Datagram
 INVARIANT LiveFirst
 PROPERTY ResolveRight
